@@ -42,13 +42,13 @@ def rule_even(ctx):
 
 
 def run(ctx):
-    F.rule_b1(ctx)
-    F.rule_b2(ctx)
-    F.rule_p1_fsa(ctx)
-    rule_even(ctx)
-    n1(ctx, ["geometry_tools/automata/fsa.py"])
-    CA.rule_c2(ctx, "FSA")
-    F.rule_rf1(ctx)
-    u1(ctx, ENTRIES, min_functions=12)
+    ctx.do(F.rule_b1)
+    ctx.do(F.rule_b2)
+    ctx.do(F.rule_p1_fsa)
+    ctx.do(rule_even)
+    ctx.do(n1, ["geometry_tools/automata/fsa.py"])
+    ctx.do(CA.rule_c2, "FSA")
+    ctx.do(F.rule_rf1)
+    ctx.do(u1, ENTRIES, min_functions=12)
     ctx.r.assume("language equality for multiples, relabelling, pruning and "
                  "the shortest-path subgraph is not decided (needs values)")
